@@ -70,12 +70,27 @@ type Contract struct {
 	Pure       bool // trusted: no heap effects, result is function of args (uninterpreted)
 	Inline     bool
 	NoOvf      bool
+	Skip       []string // safety classes not claimed for this function
+	CallAs     []*CallAs
+	Also       []string  // functype contracts this function must also satisfy
+	CapReq     []*Clause // preconditions on captured variables, asserted where the closure is created
+	ModelParams []QVar // kind "model": typed parameters
+	ModelRes    []QVar
 	Ovf        bool
 	Allocates  bool // trusted: may allocate
 	File       string
 	Line       int
 	Trusted    bool // from /verif/trusted (assumed)
 	Uses       []string
+}
+
+// CallAs replaces the callee of a call site by a named model contract whose
+// arguments are contract expressions evaluated at the call.
+type CallAs struct {
+	Anchor Anchor
+	Model  string
+	Args   []Expr
+	Src    string
 }
 
 type GhostField struct {
@@ -107,6 +122,7 @@ type AxiomDecl struct {
 	File    string
 	Line    int
 	Lemma   bool // to be proved rather than assumed
+	Props   []string
 }
 
 type GlobalInv struct {
@@ -134,7 +150,7 @@ var clauseKeywords = map[string]bool{
 	"axiom": true, "lemma": true, "props": true, "safety": true, "requires": true, "ensures": true,
 	"modifies": true, "panics": true, "panics-iff": true, "nopanic": true, "loop": true, "decreases": true,
 	"assert": true, "inline": true, "pure": true, "allocates": true, "global": true, "ovf": true, "noovf": true,
-	"uninterpreted": true, "opaque": true, "use": true,
+	"uninterpreted": true, "opaque": true, "use": true, "skip": true, "model": true, "call": true, "also": true, "requires-captured": true,
 }
 
 var tagRe = regexp.MustCompile(`^([a-z\-]+)\[([A-Z0-9, ]+)\]$`)
@@ -240,6 +256,10 @@ func (cs *ContractSet) LoadContractFile(path, pkgPath string, trusted bool) erro
 				key = "functype::" + target
 			}
 			if rc.kw == "iface" {
+				if j := strings.LastIndex(target, "."); j >= 0 && !strings.Contains(target[:j], ".") && pkgPath != "" {
+					target = pkgPath[strings.LastIndex(pkgPath, "/")+1:] + "." + target
+					cur.Target = target
+				}
 				key = "iface::" + target
 			}
 			if _, dup := cs.Funcs[key]; dup {
@@ -247,6 +267,50 @@ func (cs *ContractSet) LoadContractFile(path, pkgPath string, trusted bool) erro
 			}
 			cs.Funcs[key] = cur
 			cs.Order = append(cs.Order, key)
+		case "model":
+			// model name(p T, ...) (r T, ...)
+			cur = &Contract{Kind: "model", PkgPath: pkgPath, Loops: map[int]*LoopSpec{}, File: path, Line: rc.line, Trusted: true}
+			lp := strings.Index(rc.text, "(")
+			if lp < 0 {
+				return fail(rc.line, "bad model header")
+			}
+			name := strings.TrimSpace(rc.text[:lp])
+			rest := rc.text[lp:]
+			rp := strings.Index(rest, ")")
+			parseVars := func(s string) ([]QVar, error) {
+				var out []QVar
+				for _, p := range strings.Split(s, ",") {
+					p = strings.TrimSpace(p)
+					if p == "" {
+						continue
+					}
+					f := strings.Fields(p)
+					if len(f) < 2 {
+						return nil, fmt.Errorf("bad parameter %q", p)
+					}
+					ty, err := ParseType(strings.Join(f[1:], " "))
+					if err != nil {
+						return nil, err
+					}
+					out = append(out, QVar{f[0], ty})
+				}
+				return out, nil
+			}
+			ps, err := parseVars(rest[1:rp])
+			if err != nil {
+				return fail(rc.line, "%v", err)
+			}
+			cur.ModelParams = ps
+			rs := strings.TrimSpace(rest[rp+1:])
+			rs = strings.TrimSuffix(strings.TrimPrefix(rs, "("), ")")
+			rv, err := parseVars(rs)
+			if err != nil {
+				return fail(rc.line, "%v", err)
+			}
+			cur.ModelRes = rv
+			cur.Target = name
+			cs.Funcs["model::"+name] = cur
+			cs.Order = append(cs.Order, "model::"+name)
 		case "ghost":
 			if strings.HasPrefix(rc.text, "before ") || strings.HasPrefix(rc.text, "after ") {
 				if cur == nil {
@@ -308,7 +372,7 @@ func (cs *ContractSet) LoadContractFile(path, pkgPath string, trusted bool) erro
 			if err != nil {
 				return fail(rc.line, "%v", err)
 			}
-			cs.Axioms = append(cs.Axioms, &AxiomDecl{Name: strings.TrimSpace(rc.text[:j]), E: e, Src: strings.TrimSpace(rc.text[j+1:]), PkgPath: pkgPath, File: path, Line: rc.line, Lemma: rc.kw == "lemma"})
+			cs.Axioms = append(cs.Axioms, &AxiomDecl{Props: rc.tags, Name: strings.TrimSpace(rc.text[:j]), E: e, Src: strings.TrimSpace(rc.text[j+1:]), PkgPath: pkgPath, File: path, Line: rc.line, Lemma: rc.kw == "lemma"})
 		case "global":
 			e, err := ParseExpr(rc.text)
 			if err != nil {
@@ -375,6 +439,43 @@ func (cs *ContractSet) LoadContractFile(path, pkgPath string, trusted bool) erro
 				cur.Ovf = true
 			case "noovf":
 				cur.NoOvf = true
+			case "call":
+				// call callee#k as model(args)
+				parts := strings.SplitN(rc.text, " as ", 2)
+				if len(parts) != 2 {
+					return fail(rc.line, "expected: call callee#k as model(args)")
+				}
+				a, _, _, err := parseAnchor("before " + strings.TrimSpace(parts[0]) + ": x")
+				if err != nil {
+					return fail(rc.line, "%v", err)
+				}
+				e, err := ParseExpr(parts[1])
+				if err != nil {
+					return fail(rc.line, "%v", err)
+				}
+				ce, ok := e.(ECall)
+				if !ok {
+					return fail(rc.line, "expected model(args)")
+				}
+				id, ok := ce.Fun.(EIdent)
+				if !ok {
+					return fail(rc.line, "expected model name")
+				}
+				cur.CallAs = append(cur.CallAs, &CallAs{Anchor: a, Model: id.Name, Args: ce.Args, Src: rc.text})
+			case "also":
+				f := strings.Fields(rc.text)
+				if len(f) != 2 || f[0] != "functype" {
+					return fail(rc.line, "expected: also functype T")
+				}
+				cur.Also = append(cur.Also, f[1])
+			case "requires-captured":
+				c, err := mkClause("requires-captured", rc, len(cur.CapReq))
+				if err != nil {
+					return err
+				}
+				cur.CapReq = append(cur.CapReq, c)
+			case "skip":
+				cur.Skip = append(cur.Skip, strings.Fields(rc.text)...)
 			case "use":
 				cur.Uses = append(cur.Uses, strings.Fields(rc.text)...)
 			case "decreases":
